@@ -6,6 +6,10 @@ Helper lemmas about `Model/Pipeline.lean` (batched store part): `takeOp`,
 namespace BbRe.Lemmas.Pipeline
 open BbRe.Pipeline
 
+@[simp] theorem Status.err_error (c : Code) : (Status.error c).err = some c := rfl
+@[simp] theorem Status.err_unset : Status.unset.err = none := rfl
+@[simp] theorem Status.err_ok (m : Bool) : (Status.ok m).err = none := rfl
+
 theorem firstErr_none {a b : Option Code} (h : firstErr a b = none) : a = none ∧ b = none := by
   cases a <;> simp_all [firstErr]
 
@@ -591,7 +595,7 @@ theorem cachingPost_outputs (w : World) (req : Request) (r : Response) (a h : Op
     (cachingPost w req r a h).2.logs = r.logs ∧ (cachingPost w req r a h).2.exitCode = r.exitCode := by
   unfold cachingPost attachError
   cases req.digestValid <;> cases req.actionPresent <;> cases req.doNotCache <;>
-    cases hs : r.status <;> cases a <;> cases h <;> cases isSuccessful r <;> simp
+    cases hs : r.status.err <;> cases a <;> cases h <;> cases isSuccessful r <;> simp
 
 
 
@@ -605,14 +609,14 @@ def cachingError (req : Request) (flushed : Response) (o : ExecOracle) : Option 
 /-- The caching condition evaluated on what the caching layer sees. -/
 def cacheable (req : Request) (flushed : Response) : Prop :=
   req.digestValid = true ∧ req.actionPresent = true ∧ req.doNotCache = false ∧
-    flushed.status = none ∧ flushed.exitCode = 0
+    flushed.status.err = none ∧ flushed.exitCode = 0
 
 theorem cachingPost_acCalls (w : World) (req : Request) (r : Response) (a h : Option Code) :
     ((cachingPost w req r a h).1.acCalls = w.acCalls + 1 ↔ cacheable req r) ∧
     ((cachingPost w req r a h).1.acCalls = w.acCalls ∨ (cachingPost w req r a h).1.acCalls = w.acCalls + 1) := by
   unfold cachingPost cacheable isSuccessful
   cases hdv : req.digestValid <;> cases hap : req.actionPresent <;> cases hdc : req.doNotCache <;>
-    cases hs : r.status <;> cases a <;> cases h <;>
+    cases hs : r.status.err <;> cases a <;> cases h <;>
     by_cases he : r.exitCode = 0 <;> simp [he]
 
 end BbRe.Lemmas.Pipeline
